@@ -60,6 +60,22 @@ func stop(s string) {
 	if w := simrt.W(); w != nil {
 		simrt.Yield("log")
 		s = hideRoot(s, w.Root)
+		// like the real log.Panicf: print, then panic. The process is only gone when the panic has unwound the
+		// goroutine - its deferred functions run first, and one that blocks (a send nobody receives) keeps the
+		// process alive. simrt records the stop when the panic arrives at the top of the task.
+		w.AddLog("panic: " + s)
+		w.Emit(simrt.Event{Kind: simrt.EvLog, Note: "panic: " + s})
+		panic(simrt.StopPanic{Msg: s})
+	}
+	panic(s)
+}
+
+// exit is log.Fatal*: os.Exit(1) right away, no deferred function runs. The process stop is recorded at once and the
+// task is unwound.
+func exit(s string) {
+	if w := simrt.W(); w != nil {
+		simrt.Yield("log")
+		s = hideRoot(s, w.Root)
 		w.ProcessStopped(s)
 		panic(simrt.StopPanic{Msg: s})
 	}
@@ -72,9 +88,9 @@ func Println(v ...any)               { out(fmt.Sprintln(v...)) }
 func Panicf(format string, v ...any) { stop(fmt.Sprintf(format, v...)) }
 func Panic(v ...any)                 { stop(fmt.Sprint(v...)) }
 func Panicln(v ...any)               { stop(fmt.Sprintln(v...)) }
-func Fatalf(format string, v ...any) { stop(fmt.Sprintf(format, v...)) }
-func Fatal(v ...any)                 { stop(fmt.Sprint(v...)) }
-func Fatalln(v ...any)               { stop(fmt.Sprintln(v...)) }
+func Fatalf(format string, v ...any) { exit(fmt.Sprintf(format, v...)) }
+func Fatal(v ...any)                 { exit(fmt.Sprint(v...)) }
+func Fatalln(v ...any)               { exit(fmt.Sprintln(v...)) }
 func Output(calldepth int, s string) error {
 	out(s)
 	return nil
